@@ -49,13 +49,14 @@ package gocvss30
 //@   ensures[error_value] (=> (not (isnil result)) (= result (ite (< (midx30 abv) 0) (PErr T_ErrInvalidMetric abv) ErrInvalidMetricValue)))
 //@   ensures[err_unknown_metric] (=> (< (midx30 abv) 0) (and (is-ErrInvalidMetric result) (str= (pabv result) abv)))
 //@   ensures[err_illegal_value] (=> (and (>= (midx30 abv) 0) (= (vcode30 (midx30 abv) value) #xff)) (= result ErrInvalidMetricValue))
-//@   allocs 0
+//@   ensures[no_allocation_known_metric] (=> (>= (midx30 abv) 0) (= allocs (old allocs)))
 
 //@ func (CVSS30).Get(cvss30, abv)
 //@   requires[wf] (wf30 cvss30)
 //@   ensures[known_metric_value] (=> (>= (midx30 abv) 0) (and (isnil result.1) (= (vcode30 (midx30 abv) result.0) (field30 cvss30 (midx30 abv))) (not (= (vcode30 (midx30 abv) result.0) #xff))))
 //@   ensures[nonempty] (=> (>= (midx30 abv) 0) (> (len result.0) 0))
 //@   ensures[unknown_metric] (=> (< (midx30 abv) 0) (and (is-ErrInvalidMetric result.1) (str= (pabv result.1) abv) (= (len result.0) 0)))
+//@   ensures[no_allocation_known_metric] (=> (>= (midx30 abv) 0) (= allocs (old allocs)))
 
 //@ func validate(value, enabled)
 //@   requires[short_list] (<= (len enabled) 255)
@@ -84,6 +85,7 @@ package gocvss30
 //@   ensures[duplicate] (=> (and (>= (midx30 abv) 0) (kvmflag (old kvm) (midx30 abv))) (and (is-ErrDefinedN result) (str= (pabv result) abv) (= kvm (old kvm))))
 //@   ensures[fresh] (=> (and (>= (midx30 abv) 0) (not (kvmflag (old kvm) (midx30 abv)))) (and (isnil result) (forall-in (m 0 21) (= (kvmflag kvm m) (or (kvmflag (old kvm) m) (= m (midx30 abv)))))))
 //@   ensures[seen_array] (and (=> (>= (midx30 abv) 0) (= (isnil result) (not (select (kvmarr (old kvm)) (midx30 abv))))) (=> (isnil result) (= (kvmarr kvm) (store (kvmarr (old kvm)) (midx30 abv) true))) (=> (not (isnil result)) (= kvm (old kvm))))
+//@   ensures[no_allocation_on_success] (=> (isnil result) (= allocs (old allocs)))
 //@   ensures[error_kind] (and (=> (< (midx30 abv) 0) (= result (PErr T_ErrInvalidMetric abv))) (=> (and (>= (midx30 abv) 0) (not (isnil result))) (= result (PErr T_ErrDefinedN abv))))
 
 // ---- splitCouple (C01, C06, C18): cut an element at its first ':' ----
@@ -94,7 +96,7 @@ package gocvss30
 //@   loop 1 decreases (- (len couple) i)
 //@   ensures[key] (same-str result.0 (elemkey couple))
 //@   ensures[value] (same-str result.1 (elemval couple))
-//@   allocs 0
+//@   ensures[no_allocation] (= allocs (old allocs))
 
 // ---- ParseVector (C01, C06, C13, C18) against the reference fold parseRes30 ----
 
@@ -107,6 +109,7 @@ package gocvss30
 //@   loop 1 invariant[nosep] (forall ((p Int)) (! (=> (and (<= (+ (+ vector.off 9) start) p) (< p (+ (+ vector.off 9) i))) (not (= (select vector.arr p) #x2f))) :pattern ((select vector.arr p))))
 //@   loop 1 invariant[fold] (let ((V (substr vector 9 (len vector)))) (= (fold30 V 0 noneSeen noVals) (fold30 V start (kvmarr kvm) (valsarr30 cvss30))))
 //@   loop 1 invariant[wf] (wf30 cvss30)
+//@   loop 1 invariant[one_allocation_so_far] (= allocs (+ (old allocs) 1))
 //@   loop 1 decreases (- (+ l 2) i)
 //@   lemma[element_end] after splitCouple#1 (let ((V (substr vector 9 (len vector)))) (= (nextsep V start) i))
 //@   assume_def[unfold_fold_at_element] after splitCouple#1 (let ((V (substr vector 9 (len vector)))) (fold30_def V start (kvmarr kvm) (valsarr30 cvss30)))
@@ -116,6 +119,44 @@ package gocvss30
 //@   ensures[accept_implies_prefix] (=> (isnil result.1) (hasHeader30 vector))
 //@   ensures[accept_object] (=> (isnil result.1) (and (not (isnil result.0)) (wf30 (deref result.0)) (forall-in (m 0 21) (= (field30 (deref result.0) m) (select (p.vals (parseRes30 vector)) m)))))
 //@   ensures[reject_nil] (=> (not (isnil result.1)) (isnil result.0))
+//@   ensures[allocation_budget] (=> (isnil result.1) (<= allocs (+ (old allocs) 1)))
+
+// ---- Vector / lenVec (C02, C08, C17): the serialiser writes the canonical form in one allocation ----
+
+//@ func lenVec(cvss30)
+//@   requires[wf] (wf30 cvss30)
+//@   inline get Get
+//@   ensures[exact] (= result (canonLen30 cvss30))
+//@   ensures[no_allocation] (= allocs (old allocs))
+
+//@ func (CVSS30).Vector(cvss30)
+//@   requires[wf] (wf30 cvss30)
+//@   opt prune_infeasible
+//@   inline mandatory notMandatory get Get
+//@   lemma_chain[prefix_0] after mandatory#1 havoc b : (canonPrefix30_0 (bufstr b) cvss30)
+//@   lemma_chain[prefix_1] after mandatory#2 havoc b : (canonPrefix30_1 (bufstr b) cvss30)
+//@   lemma_chain[prefix_2] after mandatory#3 havoc b : (canonPrefix30_2 (bufstr b) cvss30)
+//@   lemma_chain[prefix_3] after mandatory#4 havoc b : (canonPrefix30_3 (bufstr b) cvss30)
+//@   lemma_chain[prefix_4] after mandatory#5 havoc b : (canonPrefix30_4 (bufstr b) cvss30)
+//@   lemma_chain[prefix_5] after mandatory#6 havoc b : (canonPrefix30_5 (bufstr b) cvss30)
+//@   lemma_chain[prefix_6] after mandatory#7 havoc b : (canonPrefix30_6 (bufstr b) cvss30)
+//@   lemma_chain[prefix_7] after mandatory#8 havoc b : (canonPrefix30_7 (bufstr b) cvss30)
+//@   lemma_chain[prefix_8] after notMandatory#1 havoc b : (canonPrefix30_8 (bufstr b) cvss30)
+//@   lemma_chain[prefix_9] after notMandatory#2 havoc b : (canonPrefix30_9 (bufstr b) cvss30)
+//@   lemma_chain[prefix_10] after notMandatory#3 havoc b : (canonPrefix30_10 (bufstr b) cvss30)
+//@   lemma_chain[prefix_11] after notMandatory#4 havoc b : (canonPrefix30_11 (bufstr b) cvss30)
+//@   lemma_chain[prefix_12] after notMandatory#5 havoc b : (canonPrefix30_12 (bufstr b) cvss30)
+//@   lemma_chain[prefix_13] after notMandatory#6 havoc b : (canonPrefix30_13 (bufstr b) cvss30)
+//@   lemma_chain[prefix_14] after notMandatory#7 havoc b : (canonPrefix30_14 (bufstr b) cvss30)
+//@   lemma_chain[prefix_15] after notMandatory#8 havoc b : (canonPrefix30_15 (bufstr b) cvss30)
+//@   lemma_chain[prefix_16] after notMandatory#9 havoc b : (canonPrefix30_16 (bufstr b) cvss30)
+//@   lemma_chain[prefix_17] after notMandatory#10 havoc b : (canonPrefix30_17 (bufstr b) cvss30)
+//@   lemma_chain[prefix_18] after notMandatory#11 havoc b : (canonPrefix30_18 (bufstr b) cvss30)
+//@   lemma_chain[prefix_19] after notMandatory#12 havoc b : (canonPrefix30_19 (bufstr b) cvss30)
+//@   lemma_chain[prefix_20] after notMandatory#13 havoc b : (canonPrefix30_20 (bufstr b) cvss30)
+//@   lemma_chain[prefix_21] after notMandatory#14 havoc b : (canonPrefix30_21 (bufstr b) cvss30)
+//@   ensures[canonical] (isCanon30 result cvss30)
+//@   ensures[one_allocation] (= allocs (+ (old allocs) 1))
 
 // ---- Rating (C15) ----
 
@@ -127,19 +168,19 @@ package gocvss30
 //@   ensures[high]     (=> (= (ratingClass score) 3) (and (isnil result.1) (str= result.0 "HIGH")))
 //@   ensures[critical] (=> (= (ratingClass score) 4) (and (isnil result.1) (str= result.0 "CRITICAL")))
 //@   ensures[out_of_bounds] (=> (= (ratingClass score) (- 1)) (and (= result.1 ErrOutOfBoundsScore) (= (len result.0) 0)))
-//@   allocs 0
+//@   ensures[no_allocation] (= allocs (old allocs))
 
 // ---- scores (C03, C10, C11, C12); the post clauses are discharged by exhaustive case split ----
 
 //@ func (CVSS30).Impact(cvss30)
 //@   requires[wf] (wf30 cvss30)
 //@   ensures[spec] (<= (rabs (- (fp.to_real result) (impact30 cvss30))) 0.000000001)
-//@   allocs 0
+//@   ensures[no_allocation] (= allocs (old allocs))
 
 //@ func (CVSS30).Exploitability(cvss30)
 //@   requires[wf] (wf30 cvss30)
 //@   ensures[spec] (<= (rabs (- (fp.to_real result) (expl30 cvss30))) 0.000000001)
-//@   allocs 0
+//@   ensures[no_allocation] (= allocs (old allocs))
 
 //@ func (CVSS30).BaseScore(cvss30)
 //@   requires[wf] (wf30 cvss30)
@@ -147,18 +188,18 @@ package gocvss30
 //@   ensures[spec] (fp.eq result (tenth (base30K cvss30)))
 //@   ensures[one_decimal_in_scale] (exists-in (k 0 100) (fp.eq result (tenth k)))
 //@   ensures[rating_accepts] (>= (ratingClass result) 0)
-//@   allocs 0
+//@   ensures[no_allocation] (= allocs (old allocs))
 
 //@ func (CVSS30).TemporalScore(cvss30)
 //@   requires[wf] (wf30 cvss30)
 //@   ensures[spec] (fp.eq result (tenth (temporalFrom30 (base30K cvss30) cvss30)))
 //@   ensures[one_decimal_in_scale] (exists-in (k 0 100) (fp.eq result (tenth k)))
 //@   ensures[rating_accepts] (>= (ratingClass result) 0)
-//@   allocs 0
+//@   ensures[no_allocation] (= allocs (old allocs))
 
 //@ func (CVSS30).EnvironmentalScore(cvss30)
 //@   requires[wf] (wf30 cvss30)
 //@   ensures[spec] (fp.eq result (tenth (envFrom30 (envInner30K cvss30) cvss30)))
 //@   ensures[one_decimal_in_scale] (exists-in (k 0 100) (fp.eq result (tenth k)))
 //@   ensures[rating_accepts] (>= (ratingClass result) 0)
-//@   allocs 0
+//@   ensures[no_allocation] (= allocs (old allocs))
